@@ -184,15 +184,15 @@ def main():
     hrep = []
     replay_dir = os.path.join(core.VERIF, 'replays', pid)
 
-    def replay_and_classify(entry, name, crate, vals, descs, buf_repr, others, role_key, native_name=None):
+    def replay_and_classify(entry, name, crate, vals, descs, buf_repr, others, role_key, native_name=None, hang=False):
         """native replay of a solver counterexample; returns after filing the entry under violations/known/inconclusive"""
         rp = os.path.join(replay_dir, f'{name}.replay')
         comment = (f'property={pid}\ncrate={crate}\ntier={tier}\nharness={name}\nfailed: ' + '; '.join(descs[:4]) +
                    f'\ninput={buf_repr}\nother values={others}')
         core.write_replay_file(rp, native_name or name, vals, comment)
-        ok, detail = core.native_replay(work, crate, rp, release=False)
+        ok, detail = core.native_replay(work, crate, rp, release=False, hang=hang)
         prof = 'dev'
-        if not ok:
+        if not ok and not hang:
             ok2, detail2 = core.native_replay(work, crate, rp, release=True)
             if ok2:
                 ok, detail, prof = True, detail2, 'release'
@@ -274,7 +274,8 @@ def main():
             rec = r['violations'][0]
             entry['failed_checks'] = [v['msg'] + ' on ' + v.get('input', '') for v in r['violations']][:8]
             if nname:
-                replay_and_classify(entry, s.name, crate, rec['vals'], [rec['msg']], rec.get('input', ''), [], None, native_name=nname)
+                replay_and_classify(entry, s.name, crate, rec['vals'], [rec['msg']], rec.get('input', ''), [], None, native_name=nname,
+                                    hang=bool(r.get('hang')) and rec['msg'].startswith('does not terminate'))
             else:
                 entry['verdict'] = 'inconclusive: counterexample without native replay body'
                 inconclusive.append(entry)
